@@ -55,8 +55,13 @@ def build_tree(rnd, root, fault, placement, st):
         grey = 100 + 7 * k
         if k % 2 == 0:
             text = f":root {{ {shared_var}: rgb({grey}, {grey}, {grey}); --only-in-{k}: #7a7a7a; }}\n" + text
-        text += f"\n.x{k}a {{ color: var({shared_var}); }}\n.x{k}b {{ color: var(--only-in-{(k + 1) % n}, #777777); background-color: #ffffff }}\n"
+        text += f"\n.x{k}a {{ color: var({shared_var}); }}\n.x{k}b {{ color: var(--only-in-{(k + 1) % n}, #6f7780); background-color: #ffffff }}\n"
         text += f".x{k}c {{ color: var(--chain{k}); }}\n:root {{ --chain{k}: var(--only-in-{(k + 2) % n}); }}\n"
+        # the same failing pairs in every file, each file in its own notation (an answer remembered per colour pair
+        # instead of per declaration carries one file's notation into another's output)
+        tn = ["#777777", "rgb(119, 119, 119)", "hsl(0, 0%, 46.67%)", "#777", "RGB(119,119,119)", "#777777"][k % 6]
+        bn = ["#ffffff", "white", "rgb(255, 255, 255)", "#fff", "hsl(0, 0%, 100%)", "#FFFFFF"][(k + 1) % 6]
+        text = f".same{k}a {{ color: {tn}; background-color: {bn} }}\n.same{k}b {{ color: {tn}; }}\n" + text   # first in the file
         sheets[rel] = text
         names.append(rel)
     faulty, orphans = [], []
